@@ -18,6 +18,10 @@
 
   Operations:
     iter [k=<rowmajor|colmajor|row|col|diag>] [a=<i>] f=<copy|ref|mut|owned> wi=<0|1> n=<calls>
+         [split=<k>]   the first k calls on the with-index iterator, then `WithIndex::source()`
+                       and the remaining calls on the wrapped iterator
+         (`via=`: API form; `wvia=into`: with-index iterator made by `From`/`into()`;
+          `via=…_numeric`: owned iterators made by `from_numeric`, placeholder = `zero()`)
         one record per call, `;`-separated:  <lower>/<upper>/<len()>:<item>[@<index>]
         taken as: size_hint(), len(), then next().  `-` = None; items are storage cells (= ids),
         `P` a placeholder, `UB` an unchecked access outside the source.
@@ -29,12 +33,12 @@
   The answer before `##` is computed from the *specification* (Spec/Iter.lean); the code-shaped
   model's answer follows only if it differs (Props/C09 proves it never does).
 -/
-import EasyMl.Model.Iter
+import EasyMl.Model.IterView
 import EasyMl.Spec.Iter
 import Driver.Parse
 
 namespace Driver.C09
-open EasyMl EasyMl.Iter Driver
+open EasyMl EasyMl.Iter EasyMl.View Driver
 
 inductive Src where
   | none
@@ -153,7 +157,7 @@ def showLeft (mem : Mem) (leafLen : Nat) : String :=
 where showNats' (l : List String) : String := if l.isEmpty then "-" else ",".intercalate l
 
 /-- answer of an `iter` / `left` operation for any position iterator -/
-def answer (op : String) (f : Flavour) (wi : Bool) (n leafLen total : Nat)
+def answer (op : String) (f : Flavour) (wi : Bool) (split : Option Nat) (n leafLen total : Nat)
     (next : σ → Outcome (Option π × σ)) (hint : σ → Outcome (Nat × Option Nat))
     (counter : σ → π) (cell : π → Option Nat) (item : Nat → Option π) (showP : π → String)
     (s0 : σ) : String :=
@@ -168,9 +172,21 @@ def answer (op : String) (f : Flavour) (wi : Bool) (n leafLen total : Nat)
       | .mut => if distinct then " distinct=ok" else " distinct=ALIAS"
       | .owned => " drops=ok"
       | _ => ""
-    let spec := ";".intercalate (specRecords wi total item cell showP n) ++ tail true
-    let model := ";".intercalate m.1 ++ tail (nodup m.2.1)
-    both spec model
+    match split with
+    | none =>
+      let spec := ";".intercalate (specRecords wi total item cell showP n) ++ tail true
+      let model := ";".intercalate m.1 ++ tail (nodup m.2.1)
+      both spec model
+    | some k =>
+      -- `k` calls on the with-index iterator, `WithIndex::source()`, then the wrapped iterator:
+      -- the wrapper has no state of its own, so the records are those of the with-index run
+      -- up to `k` and of the plain run from `k` on
+      let m0 := modelRecords f false next hint counter cell showP n (s0, mem0)
+      let m1 := modelRecords f true next hint counter cell showP n (s0, mem0)
+      let spec := ";".intercalate ((specRecords true total item cell showP n).take k ++
+        (specRecords false total item cell showP n).drop k) ++ tail true
+      let model := ";".intercalate (m1.1.take k ++ m0.1.drop k) ++ tail (nodup m0.2.1)
+      both spec model
 
 end Generic
 
@@ -178,62 +194,29 @@ end Generic
 
 def parseDotted (s : String) : List String := s.splitOn "."
 
-def applyTensorAdaptor (names : List String) (src : TSource Nat) (tok : String) :
-    Option (List String × TSource Nat) :=
+def parseNamedRanges (spec : String) : Option (List (String × IndexRange)) :=
+  (splitComma spec).mapM fun part =>
+    match parseDotted part with
+    | [n, s, l] => match s.toNat?, l.toNat? with
+      | some s, some l => some (n, ⟨s, l⟩)
+      | _, _ => none
+    | _ => none
+
+/-- the adaptors are the constructors of the C02 view model (Model/View.lean) -/
+def applyTensorAdaptor (v : View String Nat) (tok : String) : Option (View String Nat) :=
   match tok.splitOn ":" with
-  | ["range", spec] =>
-    -- from_named_to_all, then clip, then the no-zero-length validation
-    let parts := (splitComma spec).map parseDotted
-    let parsed : Option (List (String × Nat × Nat)) := parts.mapM fun p =>
-      match p with
-      | [n, s, l] => match s.toNat?, l.toNat? with
-        | some s, some l => some (n, s, l)
-        | _, _ => none
-      | _ => none
-    match parsed with
-    | none => none
-    | some rs =>
-      if rs.any (fun r => !names.contains r.1) then none else
-      let ranges := (List.zip names src.shape).map fun (nm, len) =>
-        match rs.reverse.find? (fun r => r.1 = nm) with
-        | some (_, s, l) => (s, clipLength s l len)
-        | none => (0, clipLength 0 len len)
-      if ranges.any (fun r => r.2 == 0) then none
-      else some (names, src.range ranges)
-  | ["mask", spec] =>
-    let parts := (splitComma spec).map parseDotted
-    let parsed : Option (List (String × Nat × Nat)) := parts.mapM fun p =>
-      match p with
-      | [n, s, l] => match s.toNat?, l.toNat? with
-        | some s, some l => some (n, s, l)
-        | _, _ => none
-      | _ => none
-    match parsed with
-    | none => none
-    | some ms =>
-      if ms.any (fun r => !names.contains r.1) then none else
-      let masks := (List.zip names src.shape).map fun (nm, len) =>
-        match ms.reverse.find? (fun r => r.1 = nm) with
-        | some (_, s, l) => (s, clipLength s l len)
-        | none => (0, 0)
-      let masked := src.mask masks
-      if masked.shape.any (fun l => l == 0) then none else some (names, masked)
-  | ["rename", spec] =>
-    let newNames := splitComma spec
-    if hasDuplicates newNames || newNames.length ≠ names.length then none
-    else some (newNames, src)
-  | ["reverse", spec] =>
-    let rev := splitComma spec
-    if hasDuplicates rev || rev.any (fun r => !names.contains r) then none
-    else some (names, src.reverse (names.map fun n => rev.contains n))
-  | [kind, spec] =>
-    if kind = "access" || kind = "transpose" then
-      let req := splitComma spec
-      match DimensionMappings.new (List.zip names src.shape) req with
-      | none => none
-      | some m => some (if kind = "access" then req else names, src.access m)
-    else none
+  | ["range", spec] => (parseNamedRanges spec).bind fun rs => mkRange v rs
+  | ["mask", spec] => (parseNamedRanges spec).bind fun ms => mkMask v ms
+  | ["rename", spec] => mkRename v (splitComma spec)
+  | ["reverse", spec] => mkReverse v (splitComma spec)
+  | ["access", spec] => mkAccess v (splitComma spec)
+  | ["transpose", spec] => mkTranspose v (splitComma spec)
   | _ => none
+
+/-- the view as an iterator source; a single leaf, so the cell is shown by its offset -/
+def viewSource (v : View String Nat) : TSource Nat :=
+  let src := TSource.ofView v
+  { shape := src.shape, cell := fun idx => (src.cell idx).map (·.2) }
 
 def applyMatrixAdaptor (src : MSource Nat) (tok : String) : Option (MSource Nat) :=
   match tok.splitOn ":" with
@@ -243,6 +226,11 @@ def applyMatrixAdaptor (src : MSource Nat) (tok : String) : Option (MSource Nat)
     | _ => none
   | ["reverse", spec] => some (src.reverse (spec.contains 'r') (spec.contains 'c'))
   | _ => none
+
+/-- one adaptor over a plain tensor, as names and iterator source (used by Driver/C10.lean) -/
+def applyTensorAdaptorT (t : Tensor String Nat) (tok : String) :
+    Option (List String × TSource Nat) :=
+  (applyTensorAdaptor (.tensor 0 t) tok).map fun v => (v.shape.map (·.1), viewSource v)
 
 /-! ### operations -/
 
@@ -274,6 +262,7 @@ def matrixAnswer (op : String) (src : MSource Nat) (leafLen : Nat) (toks : List 
   let a := natArg "a" toks 0
   let n := natArg "n" toks 0
   let wi := (optArg "wi" toks) == some "1"
+  let split := (optArg "split" toks).bind String.toNat?
   match parseFlavour ((optArg "f" toks).getD (if op = "left" then "owned" else "copy")) with
   | none => "bad-op"
   | some f =>
@@ -281,25 +270,25 @@ def matrixAnswer (op : String) (src : MSource Nat) (leafLen : Nat) (toks : List 
     let counterL (it : LineIter) : Nat × Nat := it.line.position it.range.start
     match kind with
     | "rowmajor" =>
-      answer op f wi n leafLen (src.rows * src.columns) rowMajorNext rowMajorSizeHint counterM
+      answer op f wi split n leafLen (src.rows * src.columns) rowMajorNext rowMajorSizeHint counterM
         src.cell (Spec.rowMajorItem src.rows src.columns) showPos (MatIter.new src.rows src.columns)
     | "colmajor" =>
-      answer op f wi n leafLen (src.rows * src.columns) colMajorNext colMajorSizeHint counterM
+      answer op f wi split n leafLen (src.rows * src.columns) colMajorNext colMajorSizeHint counterM
         src.cell (Spec.colMajorItem src.rows src.columns) showPos (MatIter.new src.rows src.columns)
     | "row" =>
       match LineIter.newRow src.rows src.columns a with
       | .panic k => s!"panic({k})"
       | .ok it =>
-        answer op f false n leafLen src.columns lineNext (fun it => .ok it.sizeHint) counterL
+        answer op f false none n leafLen src.columns lineNext (fun it => .ok it.sizeHint) counterL
           src.cell (Spec.rowItem src.columns a) showPos it
     | "col" =>
       match LineIter.newColumn src.rows src.columns a with
       | .panic k => s!"panic({k})"
       | .ok it =>
-        answer op f false n leafLen src.rows lineNext (fun it => .ok it.sizeHint) counterL
+        answer op f false none n leafLen src.rows lineNext (fun it => .ok it.sizeHint) counterL
           src.cell (Spec.columnItem src.rows a) showPos it
     | "diag" =>
-      answer op f false n leafLen (min src.rows src.columns) lineNext (fun it => .ok it.sizeHint)
+      answer op f false none n leafLen (min src.rows src.columns) lineNext (fun it => .ok it.sizeHint)
         counterL src.cell (Spec.diagonalItem src.rows src.columns) showPos
         (LineIter.newDiagonal src.rows src.columns)
     | _ => "bad-op"
@@ -307,10 +296,11 @@ def matrixAnswer (op : String) (src : MSource Nat) (leafLen : Nat) (toks : List 
 def tensorAnswer (op : String) (src : TSource Nat) (leafLen : Nat) (toks : List String) : String :=
   let n := natArg "n" toks 0
   let wi := (optArg "wi" toks) == some "1"
+  let split := (optArg "split" toks).bind String.toNat?
   match parseFlavour ((optArg "f" toks).getD (if op = "left" then "owned" else "copy")) with
   | none => "bad-op"
   | some f =>
-    answer op f wi n leafLen (prod src.shape) shapeNext (fun it => it.sizeHint) (·.indexes)
+    answer op f wi split n leafLen (prod src.shape) shapeNext (fun it => it.sizeHint) (·.indexes)
       src.cell (Spec.shapeItem src.shape) showIdx (ShapeIter.new src.shape)
 
 def step (s : State) (toks : List String) : State × String :=
@@ -324,15 +314,12 @@ def step (s : State) (toks : List String) : State × String :=
     | none => (.none, "bad-op")
     | some shape =>
       let n := elements shape
-      match Tensor.tryFrom shape (List.range n) with
+      match mkTensor 0 shape (List.range n) with
       | none => (.none, "reject")
       | some t =>
-        let start : Option (List String × TSource Nat) := some (shape.map (·.1), TSource.ofTensor t)
-        let r := adaptors.foldl (fun acc tok => acc.bind fun (nm, src) => applyTensorAdaptor nm src tok) start
-        match r with
+        match adaptors.foldl (fun acc tok => acc.bind fun v => applyTensorAdaptor v tok) (some t) with
         | none => (.none, "reject")
-        | some (names, src) =>
-          (.tensor names src n, s!"ok shape={showShape (List.zip names src.shape)}")
+        | some v => (.tensor (v.shape.map (·.1)) (viewSource v) n, s!"ok shape={showShape v.shape}")
   | "@" :: "matrix" :: rowsS :: colsS :: adaptors =>
     match rowsS.toNat?, colsS.toNat? with
     | some rows, some cols =>
